@@ -4,6 +4,7 @@ import (
 	"fmt"
 	"go/token"
 	"go/types"
+	"sort"
 	"strings"
 
 	"golang.org/x/tools/go/ssa"
@@ -50,7 +51,10 @@ func heldHeap(gd *GuardDecl) string { return "G_held|" + gd.Key }
 func (f *Frame) lockOp(mu ssa.Value, lock bool, reach string, st *State, pos token.Pos) {
 	fa, ok := mu.(*ssa.FieldAddr)
 	if !ok {
-		f.eng.note("Lock/Unlock on a mutex that is not a struct field: no effect on modelled state")
+		if f.lockOpLocal(mu, lock, reach, st, pos) {
+			return
+		}
+		f.eng.note("Lock/Unlock on a mutex that is not a struct field and has no `guards local` declaration: no effect on modelled state")
 		return
 	}
 	gd, stt, elemT := f.guardFor(fa)
@@ -104,6 +108,17 @@ func (f *Frame) lockOp(mu ssa.Value, lock bool, reach string, st *State, pos tok
 			}
 			f.frameFacts(st, after, "true", tmods)
 			*st = *after
+		}
+		// heap well-formedness holds of the current heap versions with respect to everything
+		// allocated so far (the facts emitted when a version was created only cover the objects
+		// that existed then)
+		var hns []string
+		for hn := range st.heaps {
+			hns = append(hns, hn)
+		}
+		sort.Strings(hns)
+		for _, hn := range hns {
+			f.heapWF(hn, st.heaps[hn], st.alloc)
 		}
 		// havoc guarded fields of this owner
 		for _, fname := range gd.Fields {
@@ -306,5 +321,164 @@ func (f *Frame) holdLock(instr *ssa.Call, cc *ssa.CallCommon, reach string, st *
 	f.top.noopFuncs[gw] = true
 	f.inlineCall(fn, []string{bc, gw}, bindings, reach, st)
 	f.lockOp(cc.Args[0], false, reach, st, pos)
+	return true
+}
+
+// localCell finds the cell of the local variable `name` of the function under contract as seen from
+// frame f: a captured variable of f's function, or one of its own (heap-allocated) locals.
+func (f *Frame) localCell(name string) (string, types.Type, bool) {
+	for _, fv := range f.fn.FreeVars {
+		if fv.Name() == name {
+			if pt, ok := fv.Type().Underlying().(*types.Pointer); ok {
+				if t, ok := f.vals[fv]; ok {
+					return t, pt.Elem(), true
+				}
+			}
+		}
+	}
+	for _, l := range f.fn.Locals {
+		if l.Comment == name {
+			if t, ok := f.vals[l]; ok {
+				return t, l.Type().Underlying().(*types.Pointer).Elem(), true
+			}
+		}
+	}
+	return "", nil, false
+}
+
+// lockOpLocal: Lock/Unlock on a mutex that is a local variable `mu` of a function F, declared with
+// `guards local F.mu: a, b` (the variables of F, shared with its closures, that the mutex protects)
+// and `lockinv local F.mu: e` (e over those variables). At Lock the protected variables visible in
+// this frame are havocked (a map variable denotes an arbitrary map afterwards) and the invariant is
+// assumed; at Unlock the invariant and the `cs local.mu` clauses of the function being verified
+// are proved, `old` = the state at this path's Lock.
+func (f *Frame) lockOpLocal(mu ssa.Value, lock bool, reach string, st *State, pos token.Pos) bool {
+	var name string
+	var root *ssa.Function
+	switch m := mu.(type) {
+	case *ssa.Alloc:
+		name, root = m.Comment, m.Parent()
+	case *ssa.FreeVar:
+		name, root = m.Name(), m.Parent()
+	default:
+		return false
+	}
+	for root != nil && root.Parent() != nil {
+		root = root.Parent()
+	}
+	if name == "" || root == nil {
+		return false
+	}
+	gd := f.eng.CS.Guards[FuncName(root)+"#"+name]
+	if gd == nil {
+		return false
+	}
+	owner := f.val(mu)
+	hh := heldHeap(gd)
+	top := f.top
+	mkEnv := func(cur, old *State) *SpecEnv {
+		env := f.funcEnv(cur, old)
+		if f.curBlock != nil {
+			f.bindLocals(env, f.curBlock, cur)
+			f.bindBlockLocals(env, f.curBlock, cur)
+		}
+		for p := f.parent; p != nil; p = p.parent {
+			// names of enclosing activations (HoldLock callbacks are nested closures)
+			penv := p.funcEnv(cur, old)
+			if p.curBlock != nil {
+				p.bindLocals(penv, p.curBlock, cur)
+				p.bindBlockLocals(penv, p.curBlock, cur)
+			}
+			for k, v := range penv.vars {
+				if _, ok := env.vars[k]; !ok {
+					env.vars[k] = v
+				}
+			}
+			for k, v := range penv.cellVars {
+				if env.cellVars == nil {
+					env.cellVars = map[string]sval{}
+				}
+				if _, ok := env.cellVars[k]; !ok {
+					env.cellVars[k] = v
+				}
+			}
+		}
+		return env
+	}
+	if lock {
+		for _, vn := range gd.Fields {
+			for fr := f; fr != nil; fr = fr.parent {
+				if cell, et, ok := fr.localCell(vn); ok {
+					hv := f.havocOf(et, "locked_"+vn, st)
+					f.store(st, cell, et, hv)
+					break
+				}
+			}
+		}
+		env := mkEnv(st, st)
+		for _, inv := range gd.Inv {
+			g, err := env.evalBool(inv.E)
+			if err != nil {
+				if strings.Contains(err.Error(), "unknown identifier") {
+					continue // the invariant mentions a variable this closure cannot see
+				}
+				f.bail("lockinv %s %q: %v", gd.Key, inv.Text, err)
+			}
+			f.ctx.Fact(Implies(reach, g))
+		}
+		h := f.heap(st, hh)
+		nh := f.ctx.Fresh("held", heapSort(hh))
+		f.ctx.Fact(fmt.Sprintf("(= %s (store %s %s true))", nh, h, owner))
+		st.heaps[hh] = nh
+		snapSt := st.clone()
+		snapSt.snaps = nil
+		cp := make(map[string]*State, len(st.snaps)+2)
+		for k, v := range st.snaps {
+			cp[k] = v
+		}
+		st.snaps = cp
+		st.snaps[gd.Key] = snapSt
+		st.snaps["#last"] = snapSt
+		top.lastLockSnap = snapSt
+		top.lastLockReach = reach
+		top.csCount[gd.Key]++
+		return true
+	}
+	snap := st.snaps[gd.Key]
+	if snap == nil {
+		snap = f.entry
+	}
+	if snap == nil {
+		snap = top.entry
+	}
+	env := mkEnv(st, snap)
+	for _, inv := range gd.Inv {
+		g, err := env.evalGoal(inv.E)
+		if err != nil {
+			if strings.Contains(err.Error(), "unknown identifier") {
+				continue
+			}
+			f.bail("lockinv %s %q: %v", gd.Key, inv.Text, err)
+		}
+		f.oblig("lockinv", pos, fmt.Sprintf("local %s: %s", gd.Mu, inv.Text), reach, g)
+	}
+	if top.contract != nil {
+		for _, cs := range top.contract.CS {
+			if cs.Mutex != "local."+gd.Mu {
+				continue
+			}
+			cenv := mkEnv(st, snap)
+			g, err := cenv.evalGoal(cs.E)
+			if err != nil {
+				f.bail("cs %s ensures %q: %v", cs.Mutex, cs.Text, err)
+			}
+			f.oblig("cs", pos, fmt.Sprintf("%s section %d: %s", cs.Mutex, top.csCount[gd.Key], cs.Text), reach, g)
+		}
+	}
+	h := f.heap(st, hh)
+	nh := f.ctx.Fresh("held", heapSort(hh))
+	f.ctx.Fact(fmt.Sprintf("(= %s (store %s %s false))", nh, h, owner))
+	st.heaps[hh] = nh
+	st.heaps[sinceUnlockKey] = st.alloc
 	return true
 }
